@@ -25,6 +25,7 @@ def targets(tier):
 
 STAGES = ["dist", "dist_lm", "geo", "geo_lm", "lle", "ltsa", "hlle", "dm", "tri", "cli"]
 E2E = ["klle", "kltsa", "hlle", "isomap", "lisomap", "mds", "lmds", "dm", "kpca", "le"]
+E2E_SERIAL = ["pca", "npe", "lltsa", "lpp", "spe", "rp", "fa", "tsne", "ms", "passthru"]
 
 
 def gen(tier, seed, rnd, kind):
@@ -59,6 +60,23 @@ def gen_e2e(tier, seed, rnd, kind):
                                   k=12 if m == "hlle" else rnd.choice([6, 9]), nm="brute", em="dense", width=3.0, timesteps=2, ratio=0.6,
                                   dseed=rnd.randrange(1 << 30), delay_seed=rnd.randrange(1 << 30), srand=rnd.randrange(1 << 30),
                                   shuffle=rnd.randrange(1 << 30), timeout=900, ticks=0))
+    # the methods that have no parallel region of their own today: a region added to one of them (or to a helper they share)
+    # must be race-free and thread-count independent as well; t-SNE also at a size beyond any "small problem" switch
+    for m in E2E_SERIAL:
+        if kind != "tsan" and m in ("spe", "rp", "fa", "tsne", "ms"):
+            continue  # chaotic / random: only the race detector speaks for them
+        for rep in range(reps):
+            N = rnd.choice([30, 50])
+            c = dict(mode="e2e", method=m, threads=4 if kind == "tsan" else 8, data="gauss", N=N, D=4, td=2, k=8, nm="brute", em="dense", width=3.0,
+                     maxiter=5, perp=5, theta=0.5, dseed=rnd.randrange(1 << 30), delay_seed=rnd.randrange(1 << 30), srand=rnd.randrange(1 << 30),
+                     shuffle=rnd.randrange(1 << 30), timeout=900, ticks=0)
+            if m == "ms":
+                c.update(N=16, maxiter=2)
+            cases.append(c)
+    if kind == "tsan":
+        cases.append(dict(mode="e2e", method="tsne", threads=4, data="clusters", nc=3, gap=6, N=1100, D=4, td=2, maxiter=3, perp=10, theta=0.5,
+                          dseed=rnd.randrange(1 << 30), delay_seed=rnd.randrange(1 << 30), srand=rnd.randrange(1 << 30), shuffle=rnd.randrange(1 << 30),
+                          timeout=1800, ticks=0))
     return cases
 
 
